@@ -1551,7 +1551,16 @@ class BaseSpaceImpl(*_base_space_impl_base):
         for cells in self.cells.values():
             cells.clear_all_values(clear_input=True)
             cells.on_delete()
+        self.clear_refs_referrers()
         super().on_delete()
+
+    def clear_refs_referrers(self, recursive=False):
+        # Clear values that read references of this space as its attributes
+        for ref in self.own_refs.values():
+            self.model.clear_attr_referrers(ref)
+        if recursive:
+            for space in self.named_spaces.values():
+                space.clear_refs_referrers(recursive)
 
 
 class DynamicBase(BaseSpaceImpl):
@@ -1950,6 +1959,7 @@ class UserSpaceImpl(*_user_space_impl_base):
     def on_rename(self, name):
         self.model.clear_obj(self)
         self.clear_all_cells(clear_input=True, recursive=True, del_items=True)
+        self.clear_refs_referrers(recursive=True)
         old_name = self.name
         self.name = name
         self.parent.named_spaces.rename_item(old_name, name)
